@@ -1270,7 +1270,7 @@ class Model(Family):
     hypothesis of the theorems)."""
     name = "model"
     timeout = 10.0
-    prelude = "From TskVerif Require Import Base.Common C06.Model.\nOpen Scope Z_scope."
+    prelude = "From TskVerif Require Import Base.Common C06.Model C06.SampleLists.\nOpen Scope Z_scope."
     workers = 8
     shard = 60
     coq_timeout = 1200
@@ -1340,9 +1340,16 @@ class Model(Family):
                 clist(x["num_samples"][:N]), "; ".join("jz_list " + clist(c) for c in x["children"][:N]),
                 clist(x["roots"])))
         thr = int(case["opts"].get("root_threshold", 1))
-        return ("(let ts := %s in valid_tsb ts && check_both ts %s [%s]) && "
+        term = ("(let ts := %s in valid_tsb ts && check_both ts %s [%s]) && "
                 "(let ts := %s in valid_tsb ts && check_views ts %s %s [%s])"
                 % (ts, ops, "; ".join(exp), ts2, cz(thr), ops, "; ".join(views)))
+        if case["opts"].get("sample_lists"):
+            # the raw sample linked lists (as sets) after every op satisfy the recurrence of
+            # tsk_tree_update_sample_lists over the model's parent array (C06/SampleLists.v)
+            sl = "; ".join("[" + "; ".join(clist(x) for x in st[si]["sample_lists"][:N]) + "]"
+                           for _r, _e, si, _so, _iv in obs["steps"])
+            term += " && (let ts := %s in check_slists ts %s [%s])" % (ts, ops, sl)
+        return term
 
     def nontrivial(self, case, obs):
         return len(obs["tab"]["bps"]) > 2 and len(case["ops"]) >= 4
